@@ -411,6 +411,7 @@ def plan_C06(c):
     g_parser_paths(c)
     g_parse_scaling(c)
     v(c, 'c06', 3000, 80000)
+    in_release(c, lambda: (g_parse_scaling(c), v(c, 'c06', 1500, 40000)))
 
 
 def g_parse_scaling(c):
@@ -488,6 +489,7 @@ def g_parser_paths(c):
 def plan_C07(c):
     g_operands(c, lambda x, i: [{'ev': 'str', 't': 1, 'x': x}])
     v(c, 'c07', 3000, 100000)
+    in_release(c, lambda: v(c, 'c07', 1500, 50000))
 
 
 def plan_C08(c):
@@ -495,6 +497,7 @@ def plan_C08(c):
     c.mc('MC_Refine', cfg='MC_Refine_cmp_sign', expect='violation')
     g_bounds(c, ['eq', 'ne', 'lt', 'le', 'gt', 'ge', 'cmp', 'partial_cmp', 'min', 'max'], kind='cmp')
     v(c, 'c08', 5000, 200000)
+    in_release(c, lambda: v(c, 'c08', 2500, 100000))
     v(c, 'c08a', 2000, 60000)
     # hand-written ArchivedDecimal (Archive / Deserialize / CheckBytes) of the packed layout
     v(c, 'c08a', 1500, 60000, features=('packed', 'rkyv'), label='packed')
@@ -506,6 +509,7 @@ def plan_C09(c):
     # ratio and digest of every boundary operand in every scale: all representations of a value meet in one digest entry
     g_operands(c, lambda x, i: [{'ev': 'ratio', 't': 1, 'x': x}, {'ev': 'hash', 't': 1, 'x': x}, {'ev': 'hs', 't': 1, 'op': ['insert', 'contains', 'remove'][i % 3], 'x': x}])
     v(c, 'c09', 5000, 150000)
+    in_release(c, lambda: v(c, 'c09', 2500, 75000))
 
 
 def plan_C10(c):
@@ -524,6 +528,7 @@ def plan_C11(c):
         c.mc('MC_Format', cfg='MC_Format_' + ctl, expect='violation')
     g_small(c, ['fmt'])
     v(c, 'c11', 4000, 120000)
+    in_release(c, lambda: v(c, 'c11', 2000, 60000))
 
 
 def plan_C12(c):
@@ -536,6 +541,7 @@ def plan_C12(c):
         c.mc('MC_Float', cfg='MC_Float_' + ctl, expect='violation')
     g_operands(c, lambda x, i: [{'ev': 'tofloat', 't': 1, 'x': x}])
     v(c, 'c12', 2500, 80000)
+    in_release(c, lambda: v(c, 'c12', 2500, 80000))
 
 
 def float_calls(c):
@@ -573,6 +579,7 @@ def plan_C13(c):
                                       'frac': jnum(b & ((1 << fb) - 1))['m']})
     run_vectors(c, calls, 'decties')
     v(c, 'c13', 3000, 100000)
+    in_release(c, lambda: (run_vectors(c, float_calls(c), 'floats'), v(c, 'c13', 1500, 50000)))
 
 
 INT_TYPES10 = ['u8', 'i8', 'u16', 'i16', 'u32', 'i32', 'u64', 'i64', 'i128', 'u128']
@@ -644,6 +651,7 @@ def plan_C16(c):
     g_maxquot(c, 'wide')
     g_knuth(c, 'wide')
     v(c, 'c16', 4000, 120000)
+    in_release(c, lambda: v(c, 'c16', 2000, 60000))
 
 
 FORM_OPS = ['add', 'sub', 'mul', 'div', 'rem', 'checked_add', 'checked_sub', 'checked_mul', 'checked_div', 'checked_rem',
